@@ -229,7 +229,7 @@ def rules(ctx):
     # a dummy id handed to improve_depots panics (rules shared with C15, C14, C11)
     before = len(ctx.obligations)
     formulas.flow_network_details(ctx, "R4")
-    ctx.obligations[before:] = [o for o in ctx.obligations[before:] if "connection-bound" in o.id or "arc-direction" in o.id]
+    ctx.obligations[before:] = [o for o in ctx.obligations[before:] if "connection-bound" in o.id or "arc-direction" in o.id or "decoding-takes" in o.id]
     from . import order as _order
     _b = len(ctx.obligations)
     _order.pair_order(ctx, "R4")
